@@ -32,6 +32,26 @@ FLAGS = ("m_readingLeft", "m_countingLeft")
 COUNTERS = ("m_leftReadCount", "m_rightReadCount")
 
 
+def deleter_counter_based(ctx):
+    """the reader / deleter rules follow a registration that lock_shared() performs itself and shared_deleter gives back
+    through a reference to the counter (m_readingCount).  With another representation (a registration object owned by
+    the deleter, ...) they cannot be applied: analysis broken, not a violation."""
+    recs = [r for r in ctx.fb.records() if r.qname.startswith(LR) and r.qname.endswith("::shared_deleter") and not r.dependent]
+    if not recs:
+        return False
+    for r in recs:
+        fl = r.field("m_readingCount")
+        if fl is None or not re.match(r"^std::atomic<.*>\s*&$", fl["type"]):
+            return False
+    return True
+
+
+def _representation_changed(ctx, rid):
+    ctx.unknown("%s: lr_guarded::shared_deleter no longer refers to its counter through the reference member m_readingCount; "
+                "the rules that pair lock_shared()'s registration with the deleter's decrement describe that "
+                "representation and cannot judge another one" % rid)
+
+
 def lr_functions(ctx, name):
     return list(ctx.fb.functions(rec=LR, name=name))
 
@@ -147,6 +167,9 @@ def reader_rules(ctx, rid="C03.reader"):
     fs = lr_functions(ctx, "lock_shared")
     if not fs:
         ctx.broken("lr_guarded::lock_shared not instantiated")
+    if not deleter_counter_based(ctx):
+        _representation_changed(ctx, rid)
+        return
     for f in fs:
         try:
             runs = run_paths(f)
@@ -222,6 +245,21 @@ def deleter_rules(ctx, rid="C03.deleter"):
              "type is a move-only unique_ptr to const", floor=4)
     fb = ctx.fb
     n = 0
+    if not deleter_counter_based(ctx):
+        # whatever the representation: being invoked with a non-null pointer is the moment the handle gives the data up
+        # (reset(), destruction) - the registration has to be given back there, exactly once
+        for f in fb.functions(rec=DEL, name="operator()"):
+            n += 1
+            ops = [op for op in atomic_ops(f) if op["op"] == "rmw" and op["name"] in ("operator--", "fetch_sub")]
+            ok = len(ops) == 1
+            ctx.ob(rid, ok, f.where, "invoked with the handle's pointer, the deleter gives the registration back (one decrement "
+                   "of an atomic counter reachable from the deleter)", "" if ok else
+                   "decrements found in operator(): %d - a handle that is reset() keeps its reader registered, and the "
+                   "writer waits for it for as long as the empty handle lives" % len(ops), fn=f.label, inst=f.qname)
+        if n == 0:
+            ctx.broken("shared_deleter::operator() not instantiated")
+        _representation_changed(ctx, rid)
+        return
     for f in fb.functions(rec=DEL):
         if f.kind == "ctor" and not f.defaulted and len(f.params) == 1:
             ini = [i for i in f.inits if i.get("field") == "m_readingCount"]
@@ -414,6 +452,35 @@ def handler_rules(ctx, rid="C03.handlers"):
                            "is overwritten while they may be reading it" % pv, fn=f.label, inst=f.qname)
 
 
+def _captured_exception_rethrown(ctx, f, tr, hid):
+    """the handler `hid` of try statement `tr` keeps the exception as a std::exception_ptr (std::current_exception())
+    instead of rethrowing it.  Decided by interpreting every path from the handler to an end of the function with the
+    null / non-null state of exception_ptr values: each feasible one must end in std::rethrow_exception of a non-null
+    pointer."""
+    from ..lr import run_paths
+    hb = None
+    for b, blk in f.blocks.items():
+        if blk.term and blk.term.get("k") == "CXXTryStmt" and blk.term.get("s") == tr["id"]:
+            hs = [s for s in blk.succs if s is not None]
+            idx = tr["handlers"].index(hid)
+            if idx < len(hs):
+                hb = hs[idx]
+    if hb is None:
+        return False, "cannot locate the handler in the control-flow graph"
+    try:
+        runs = run_paths(f, start=hb)
+    except TooManyPaths:
+        ctx.broken("too many paths from a handler of " + f.label)
+    if not runs:
+        return False, "no path leaves the handler"
+    for r in runs:
+        rt = [e for e in r.events if e[0] == "rethrow"]
+        if not rt or rt[-1][1][0] == "null":
+            return False, "the handler keeps the exception as a value (std::current_exception) but a path from it leaves modify() " \
+                          "without std::rethrow_exception: the caller is never told that its functor failed"
+    return True, ""
+
+
 def lr_handlers(ctx, rid="C20.lr"):
     ctx.rule(rid, "lr_guarded::modify: both applications are covered by catch(...) handlers that restore the written copy "
              "from the other copy and rethrow; the first application precedes every flag store", floor=8)
@@ -473,6 +540,13 @@ def lr_handlers(ctx, rid="C20.lr"):
                         if lp or rp:
                             asg.append((lp, rp))
                 rethrow = any(d["k"] == "CXXThrowExpr" and d.get("rethrow") for d in f.descendants(body))
+                if not rethrow and (pv, other) in asg and all(l == pv for l, _ in asg) and \
+                        any(d["k"] == "CallExpr" and callee_fq(d) == "std::current_exception" for d in f.descendants(body)):
+                    # the exception leaves the handler as a value: it has to be rethrown on every way out of modify
+                    rethrow, why = _captured_exception_rethrown(ctx, f, tr, hid)
+                    if not rethrow:
+                        detail = why
+                        continue
                 if (pv, other) in asg and rethrow and all(l == pv for l, _ in asg):
                     good = True
                 else:
